@@ -423,7 +423,7 @@ def discharge(ctx, I, s, handles, need):
                 if some_ok:
                     import poly as PL
                     g2 = assert_guards(tb, some_defs[0][0])
-                    px_, py_ = tb.param_index('x'), tb.param_index('y')
+                    px_, py_ = 2, 3          # tile(&self, x, y): by position, the names are free to change
 
                     def kind_of(op, a_, c_):
                         # compared up to value-preserving widening (`x as i64 < self.width as i64`, a shared i64 helper inlined)
